@@ -191,6 +191,21 @@ def chunk_model_check(fm, data, leaves, rgs, fn=None):
                         raw = fmtlib.CODECS[codec][1](pl, p["uncompressed_page_size"])
                         dtbl.append([bytes([codec]) + pl, raw])
                     real_raws.append(raw)
+            # (a0) file level (Impl/WFile.w_cmd, C02_fp_write_file_valid_partial): the ColumnMetaData write_column recorded are those of
+            #      the pos/diff bookkeeping model over the pages really written, from the real chunk start
+            try:
+                kinds = {2: 0, 0: 1, 3: 2}
+                psx = [[kinds[p["type"]], p["header_len"], p["compressed_page_size"], p["uncompressed_page_size"],
+                        p.get("num_values", 0) or 0, p.get("encoding", 0) or 0] for p in pages]
+                bk = fm.pq.call("wr_bookkeeping", start, sum(p.get("num_values", 0) or 0 for p in pages if p["type"] in (0, 3)),
+                                [int(e) for e in (m.encodings or [])], psx)
+                real = [m.num_values, m.data_page_offset, ([] if m.dictionary_page_offset is None else [m.dictionary_page_offset]),
+                        m.total_compressed_size, m.total_uncompressed_size]
+                out["bk"] = out.get("bk", 0) + 1
+                if [bk[0], bk[1], list(bk[2]), bk[3], bk[4]] != real:
+                    out.setdefault("bk_bad", []).append("column %s chunk at %d: bookkeeping model %r, ColumnMetaData %r" % (l["name"], start, bk[:5], real))
+            except Exception as e:      # noqa
+                out.setdefault("bk_bad", []).append("harness: %s: %s" % (type(e).__name__, e))
             # (b) the reader model with the shortcuts on the real bytes
             st = m.statistics
             skip = 1 if (st is not None and getattr(st, "null_count", 1) == 0) else 0
@@ -270,7 +285,7 @@ def chunk_model_check(fm, data, leaves, rgs, fn=None):
     return out
 
 
-def check_dataset(path, df, spec, o, fm):
+def check_dataset(path, df, spec, o, fm, allow_orphans=False):
     """-> dict(problems=[(stage, text)], files, lenient, pages...) for a written dataset at `path`"""
     from harness import fmtlib, rt
     res = {"problems": [], "files": 0, "lenient": 0, "verdicts": {}}
@@ -287,6 +302,19 @@ def check_dataset(path, df, spec, o, fm):
             res["problems"].append(("layout", "unexpected files in the dataset: %r" % [os.path.relpath(x, path) for x in other][:4]))
         if "_metadata" not in [os.path.basename(m) for m in metas]:
             res["problems"].append(("layout", "no _metadata file in a hive/drill dataset"))
+        elif allow_orphans:
+            # after an operation that FAILED part files it had already written may be left behind; the dataset is what _metadata names
+            try:
+                mdata = open([m for m in metas if os.path.basename(m) == "_metadata"][0], "rb").read()
+                named = set()
+                for rg in (_fld(_footer_tv(fm, mdata), 4) or [0, 0, []])[2]:
+                    for c in _fld(rg, 1)[2]:
+                        if _fld(c, 1):
+                            named.add(bytes(_fld(c, 1)[1]).decode())
+                res["orphans"] = len([f for f in parts if os.path.relpath(f, path) not in named])
+                parts = [f for f in parts if os.path.relpath(f, path) in named]
+            except Exception as e:     # noqa
+                res["problems"].append(("metadata", "_metadata unreadable: %s" % e))
     leaves, cols = None, {}
     part_rgs = []
     part_rows = []
@@ -322,6 +350,8 @@ def check_dataset(path, df, spec, o, fm):
                                                  "reader_bad": [], "cat_chunks": 0, "cat_read": 0, "cat_real": 0})
             for k in ("chunks", "bytes_equal", "raw_equal", "reader", "cat_chunks", "cat_read", "cat_real"):
                 acc[k] += cm.get(k, 0)
+            acc["bk"] = acc.get("bk", 0) + cm.get("bk", 0)
+            acc.setdefault("bk_bad", []).extend(cm.get("bk_bad", [])[:2])
             acc["differ"].extend(cm["differ"][:2])
             acc["reader_bad"].extend(cm["reader_bad"][:2])
         except Exception as e:    # noqa
@@ -510,7 +540,7 @@ def _hist_job(h):
            "failed_steps": 0}
     old = writer.MAX_PAGE_SIZE, writer.DATAPAGE_VERSION
     try:
-        path = os.path.join(tmp, "h.parquet")
+        path = os.path.join(tmp, "h.parquet" if o["file_scheme"] == "simple" else "h_ds")
         df = F.build(spec)
         try:
             rt.write_frame(df, path, spec, o)
@@ -544,7 +574,7 @@ def _hist_job(h):
                         pf.write_row_groups(data, row_group_offsets=st.get("offsets"), compression=o["compression"], stats=o["stats"])
                     else:
                         fastparquet.write(path, pd.concat(frames, ignore_index=True) if len(frames) > 1 else frames[0], append=True,
-                                          compression=o["compression"], stats=o["stats"],
+                                          compression=o["compression"], stats=o["stats"], file_scheme=o["file_scheme"],
                                           **({"row_group_offsets": st["offsets"]} if st.get("offsets") else {}))
                         pf = fastparquet.ParquetFile(path)
                 except Exception as e:     # noqa: a step that raises must leave the file as it was
@@ -555,7 +585,7 @@ def _hist_job(h):
                     any_failed = True
                     out["failed_steps"] += 1
                 out["steps_done"] = si
-            res = check_dataset(path, expected, spec, dict(o, write_index=False), _fmt())
+            res = check_dataset(path, expected, spec, dict(o, write_index=False), _fmt(), allow_orphans=any_failed)
             out["files"] += res["files"]
             out["lenient"] += res["lenient"]
             if res["problems"]:
@@ -612,6 +642,40 @@ def gen_histories(ctx):
                 st["offsets"] = rng.choice([2, 5])
             steps.append(st)
         hs.append({"spec": spec, "opts": o, "steps": steps})
+    return hs
+
+
+def gen_multi_histories(ctx):
+    """MULTI-FILE datasets (hive / drill) grown by appends past the places where the part numbering changes shape: 9 -> 10 -> 11 -> 12
+    part files (part.9 / part.10 / part.11: one more digit; ids compared as numbers, not as text), also ~100 in the thorough tier.
+    Every step succeeds; after every step every part file, _metadata and _common_metadata are validated, _metadata must describe
+    exactly the footers of the part files on disk, and the decoded rows must be the rows written so far."""
+    from harness import rt
+    rng = ctx.rng
+    hs = []
+    targets = [8, 9, 10, 10, 11, 11, 12, 9, 10, 11] if ctx.quick() else [8, 9, 10, 11, 12, 9, 10, 11] * 4 + [98, 99, 100, 101]
+    for i, p0 in enumerate(targets):
+        kinds = [rng.choice(["int64", "float64", "str", "dt_ns", "Int32", "bool"]) for _ in range(rng.choice([1, 2]))]
+        spec = F.gen_spec(rng, n=p0 * 2, ncols=0, index=False)
+        spec["cols"] = [{"name": "c%d_%s" % (j, k), "kind": k, "nulls": rng.choice(["none", "some"]), "seed": rng.randrange(1 << 30)}
+                        for j, k in enumerate(kinds)]
+        o = rt.gen_opts(rng, spec)
+        o.update(file_scheme=rng.choice(["hive", "drill"]), write_index=False, has_nulls=True, object_encoding="infer",
+                 row_group_offsets=2, page_size=None, compression=rng.choice([None, "SNAPPY", "ZSTD"]))      # p0 part files of 2 rows
+        steps = []
+        for k in range(rng.choice([2, 3]) if p0 < 50 else 2):
+            via = rng.choice(["handle", "fresh", "fresh"])
+            nparts = rng.choice([1, 1, 2])
+            steps.append({"via": via, "frames": [2 * nparts], "seeds": [rng.randrange(1 << 30)], "offsets": 2 if nparts > 1 else None,
+                          "fail": None})
+        if i % 2 == 1:
+            # class "failed operation, then continued use of the same handle": the producer of the frames raises after k part files of this
+            # append were written; the step must leave the dataset as it was (part files left behind are not part of it), and the NEXT
+            # append through the same handle must not publish anything of the failed one
+            steps.insert(len(steps) - 1, {"via": "handle", "frames": [2, 2, 2], "seeds": [rng.randrange(1 << 30) for _ in range(3)],
+                                          "offsets": None, "fail": {"kind": "iter", "at": rng.randrange(3)}})
+            steps[-1]["via"] = "handle"
+        hs.append({"spec": spec, "opts": o, "steps": steps, "multi": True})
     return hs
 
 
@@ -690,7 +754,7 @@ def gen_jobs(ctx):
             for n in sizes_small + sizes_big:
                 for _ in range(3):
                     jobs.append(_one(rng, k, n))
-    for _ in range(500 if ctx.quick() else 6000):
+    for _ in range(440 if ctx.quick() else 6000):
         spec = _zones(rng, F.gen_spec(rng, n=rng.choice(sizes_small + ([257, 8193] if rng.random() < 0.1 else []))))
         o = rt.gen_opts(rng, spec)
         o["file_scheme"] = rng.choice(["simple", "simple", "hive", "drill"])
@@ -729,6 +793,7 @@ def run(ctx):
     ctx.trusted = TRUSTED
     ctx.coq_file(os.path.join(C.COQ, "props", "C02.v"))
     ctx.coq_file(os.path.join(C.COQ, "props", "C02_pages.v"))      # every page kind of the writer through the specification decoder
+    ctx.coq_file(os.path.join(C.COQ, "props", "C02_file.v"))       # the whole file of the writer model: dec_file / valid_file
     bad = C.hygiene()
     ctx.obligation("hygiene: no Admitted/Axiom/Parameter/... in coq/", not bad, "; ".join(bad))
     C.shadow()
@@ -739,7 +804,7 @@ def run(ctx):
                 "file_scheme simple/hive/drill incl. _metadata/_common_metadata, partition_on a key column with 1..3 values, write_index); every written file -> pqref fmt_validate "
                 "+ fmt_decode; trivial = the write raised (allowed outcome); distinct = distinct (spec, options)")
     jobs = gen_jobs(ctx)
-    hists = gen_histories(ctx)
+    hists = gen_histories(ctx) + gen_multi_histories(ctx)
     allres = C.pmap(_any_job, jobs + hists, init=_init, nproc=min(8, os.cpu_count() or 4), job_timeout=300)
     results, hres = allres[:len(jobs)], allres[len(jobs):]
     run_histories(ctx, hists, hres)
@@ -788,6 +853,9 @@ def run(ctx):
             cmw["differ"] += len(cm["differ"])
             if cm["differ"] and not cmw["first"]:
                 cmw["first"] = cm["differ"][0]
+            if not known and cm.get("bk"):
+                ctx.correspondence("ColumnMetaData of every real chunk = Format/ChunkLayout.wr_bookkeeping over the pages written (Impl/WFile.w_cmd)",
+                                   case, "equal", "equal" if not cm.get("bk_bad") else cm["bk_bad"][0])
             if not known and cm["reader"]:
                 ctx.correspondence("reader model with the selfmade shortcuts (Impl/RSelf.rd_chunk_sm, C01_chunk_roundtrip_partial) on "
                                    "the chunks write_column wrote = specification decoder", case,
@@ -819,7 +887,7 @@ def classify_history(h, res):
     st = h["steps"][res["at_step"] - 1] if res.get("at_step") else None
     return {"stage": stage, "history": True, "after_failed_step": bool(res.get("after_failure")),
             "step_failed_itself": bool(st and st.get("fail")), "via": st["via"] if st else "write",
-            "dpv": h["opts"]["dpv"], "file_scheme": "simple", "kinds": sorted(set(c["kind"] for c in h["spec"]["cols"])),
+            "dpv": h["opts"]["dpv"], "file_scheme": h["opts"]["file_scheme"], "kinds": sorted(set(c["kind"] for c in h["spec"]["cols"])),
             "why": re.sub(r"\d+", "#", text)[:160]}
 
 
@@ -833,6 +901,7 @@ def run_histories(ctx, hists, hres):
         ctx.case(case, trivial=(res["outcome"] == "write-raised"))
         ctx.count("history_outcome", res["outcome"])
         ctx.count("history_steps", len(h["steps"]))
+        ctx.count("history_scheme", h["opts"]["file_scheme"])
         for st in h["steps"]:
             ctx.count("history_step", "%s/%s" % (st["via"], (st["fail"] or {}).get("kind", "succeeds")))
         if res["outcome"] == "harness-error":
